@@ -1,6 +1,7 @@
 import GModel.Basic
 import GModel.Ops
 import GModel.Pipeline
+import GModel.RdfNames
 /-! line-protocol operation: the whole per-atom chain (C07) -/
 namespace G.Ops10
 open G G.Ops G.Pipeline
@@ -15,5 +16,12 @@ def opPipe : Rd String := do
   let r := run m.metric frac mr sites pts
   pure ("ok " ++ showInts r.states ++ " | " ++ showInts r.inner ++ " | " ++ showEvents r.events ++ " | " ++ showJumps r.jumps)
 
-def table : List (String × Rd String) := [("pipe", opPipe)]
+/-- `rdfnames n labels…` → `code name` for every key of the dictionary `_get_states` builds from these unique labels -/
+def opRdfNames : Rd String := do
+  let u ← rdList tok
+  let tbl := RdfNames.table u
+  let codes := (tbl.map (·.1)).eraseDups
+  pure ("ok " ++ " ".intercalate (codes.map (fun c => s!"{c} {(RdfNames.lookup tbl c).getD "?"}")))
+
+def table : List (String × Rd String) := [("pipe", opPipe), ("rdfnames", opRdfNames)]
 end G.Ops10
